@@ -64,8 +64,65 @@ def _depends_on(res, e, params, depth=0, seen=None):
     return False
 
 
+def callback_threading(ctx, rule="C17.R8"):
+    """System.step_callback hands each contribution ITS slice of the state and writes the result back.  Contributions overlap: a
+    contact between two rigid bodies (Sphere2Sphere) owns a callback and its qDOF covers both bodies' coordinates, which it returns
+    unchanged.  The normalisation done by the bodies' own callbacks survives only if every callback reads the slices of the very
+    arrays the results are written to (and that are returned): a later pass-through callback then hands on what the earlier ones
+    normalised.  Reading from a snapshot makes the pass-through overwrite the unit quaternions with the un-normalised ones."""
+    rep = ctx.rep
+    rel = "cardillo/system.py"
+    fn = ctx.repo.get(rel, "System.step_callback")
+    C = f"{rel}:System.step_callback"
+    ret = [r.value for r in ast.walk(fn) if isinstance(r, ast.Return) and r.value is not None]
+    returned = [norm_src(e) for e in (ret[-1].elts if ret and isinstance(ret[-1], ast.Tuple) else ret[-1:])]
+    calls = [n for n in ast.walk(fn) if isinstance(n, ast.Assign) and isinstance(n.value, ast.Call) and isinstance(n.value.func, ast.Attribute)
+             and n.value.func.attr == "step_callback"]
+    if not calls or len(returned) != 2:
+        raise AnalysisError(f"{C}: per-contribution callback (a, b = contr.step_callback(t, ...)) or the returned pair not recognised")
+    def base(e):
+        while isinstance(e, ast.Subscript):
+            e = e.value
+        return norm_src(e)
+    for st in calls:
+        tg = st.targets[0]
+        outs = [base(e) for e in (tg.elts if isinstance(tg, ast.Tuple) else [tg])]
+        ins = [base(a) for a in st.value.args[1:3]]
+        if len(outs) != 2 or len(ins) != 2:
+            rep.bad(rule, C, st, "the callback's (q, u) pair is not written back as a pair", f"{rel}:{st.lineno}")
+            continue
+        for kind, o, i, r in zip(("coordinates", "velocities"), outs, ins, returned):
+            if o == i == r:
+                rep.ok(rule, C, f"{kind}: each callback reads its slice of `{i}`, writes it back to `{o}`, `{r}` is returned")
+            elif o != r:
+                rep.bad(rule, C, st, f"{kind}: callback results are written to `{o}` but `{r}` is returned (normalised quaternions are dropped)", f"{rel}:{st.lineno}")
+            else:
+                rep.bad(rule, C, st, f"{kind}: callbacks read their slice from `{i}` but results go to `{o}`: a contribution that passes its coordinates through unchanged and "
+                        "overlaps a rigid body (Sphere2Sphere covers both bodies' qDOF) writes the un-normalised quaternion of the snapshot over the normalised one",
+                        f"{rel}:{st.lineno}")
+    # every contribution's own callback returns (functions of) the arrays it was given
+    n = 0
+    for rel2, mod in sorted(ctx.repo.modules.items()):
+        if not rel2.startswith("cardillo/") or rel2 == rel:
+            continue
+        for q, f in mod.defs().items():
+            if isinstance(f, ast.FunctionDef) and f.name == "step_callback" and len(f.args.args) >= 4:
+                n += 1
+                qn, un = f.args.args[2].arg, f.args.args[3].arg
+                rets = [r.value for r in ast.walk(f) if isinstance(r, ast.Return)]
+                if rets and all(isinstance(r, ast.Tuple) and len(r.elts) == 2 and norm_src(r.elts[0]) == qn and norm_src(r.elts[1]) == un for r in rets):
+                    rep.ok(rule, f"{rel2}:{q}", f"returns its (in place updated) arguments ({qn}, {un})")
+                else:
+                    rep.bad(rule, f"{rel2}:{q}", rets[0] if rets and rets[0] is not None else f.name, f"step_callback does not return the pair ({qn}, {un}) it was given: System.step_callback writes "
+                            "whatever is returned into the state", f"{rel2}:{f.lineno}")
+    if n < 3:
+        raise AnalysisError(f"{rule}: fewer than 3 contribution step_callback implementations found")
+
+
 def run(ctx):
     rep = ctx.rep
+    rep.rule("C17.R8", "System.step_callback threads ONE state through all callbacks (overlapping contributions keep the normalisation)", 5)
+    callback_threading(ctx)
     rep.rule("C17.R1", "constraints enforced at the end point on the unknown", 8)
     rep.rule("C17.R2", "one evaluation point per linear system", 25)
     rep.rule("C17.R3", "stored states come out of step_callback", 8)
@@ -339,4 +396,18 @@ NEUTRAL = [
          old="            qn1 = self.qn + dqn1\n", new="            qn1 = self.qn.copy()\n            qn1 += dqn1\n"),
     dict(id="c17-n2", what="Rattle stores copies of the accepted state", file=RT,
          old="            q.append(qn1)\n            u.append(un1)\n            la_c.append(0.5", new="            q.append(qn1.copy())\n            u.append(un1.copy())\n            la_c.append(0.5"),
+]
+SYSF = "cardillo/system.py"
+MUTANTS += [
+    dict(id="c17-r8-seed", canary=True, what="[seeded by sub-agent] System.step_callback evaluates every callback on a snapshot of the state", file=SYSF,
+         old="        for contr in self.__step_callback_contr:\n            q[contr.qDOF], u[contr.uDOF] = contr.step_callback(\n                t, q[contr.qDOF], u[contr.uDOF]\n            )\n",
+         new="        qn, un = q.copy(), u.copy()\n        for contr in self.__step_callback_contr:\n            q[contr.qDOF], u[contr.uDOF] = contr.step_callback(\n                t, qn[contr.qDOF], un[contr.uDOF]\n            )\n", expect="C17.R8"),
+    dict(id="c17-r8-2", what="System.step_callback works on copies and returns the originals", file=SYSF,
+         old="    def step_callback(self, t, q, u):\n        for contr in self.__step_callback_contr:\n            q[contr.qDOF], u[contr.uDOF] = contr.step_callback(\n                t, q[contr.qDOF], u[contr.uDOF]\n            )\n",
+         new="    def step_callback(self, t, q, u):\n        qc, uc = q.copy(), u.copy()\n        for contr in self.__step_callback_contr:\n            qc[contr.qDOF], uc[contr.uDOF] = contr.step_callback(\n                t, qc[contr.qDOF], uc[contr.uDOF]\n            )\n", expect="C17.R8"),
+]
+NEUTRAL += [
+    dict(id="c17-n-r8", canary=True, what="System.step_callback works on copies throughout and returns them", file=SYSF,
+         old="    def step_callback(self, t, q, u):\n        for contr in self.__step_callback_contr:\n            q[contr.qDOF], u[contr.uDOF] = contr.step_callback(\n                t, q[contr.qDOF], u[contr.uDOF]\n            )\n        return q, u\n",
+         new="    def step_callback(self, t, q, u):\n        qc, uc = q.copy(), u.copy()\n        for contr in self.__step_callback_contr:\n            qc[contr.qDOF], uc[contr.uDOF] = contr.step_callback(\n                t, qc[contr.qDOF], uc[contr.uDOF]\n            )\n        return qc, uc\n"),
 ]
